@@ -114,6 +114,11 @@ class Exporter:
             elif name == "DistAssignment":
                 out.append(["draw", str(s.variable), self.dist(s.distribution),
                             self.cond(s.condition), str(s.default)])
+            elif name == "FunctionalAssignment":
+                arg = s.argument
+                out.append(["func", str(s.variable), str(s.func),
+                            str(arg) if arg.is_Symbol else frac_str(sympy.sympify(arg)),
+                            self.cond(s.condition), str(s.default)])
             elif name == "IfStatem":
                 out.append(["if", [self.cond(c) for c in s.conditions],
                             [self.stmts(b) for b in s.branches],
